@@ -11,6 +11,7 @@ RULE = (
     "after every step (which populates the sorted cache), without any query, and with the all-events get_listeners() "
     "evaluated first after every step; the same lengths over a 7-op re-entrant alphabet (a listener registers a "
     "further listener of higher / lower / equal priority for the running event through the dispatcher it is handed); "
+    "the same lengths over a 7-op event-reuse alphabet (the event object returned by one dispatch is handed to the next); "
     "random: Hypothesis op lists "
     "up to 40 ops with 3 events, priorities {-3,0,5}, re-registration of an existing callable, listeners that "
     "register a further listener while being called, and every single query form (all events, one event, has) as its own operation. Non-trivial: a dispatch "
@@ -22,6 +23,7 @@ ASSUMPTIONS = [
     "a callable registered twice counts as two registrations (it is called twice); get_listener_priority of such a "
     "callable may report any of its priorities",
     "a listener added while a dispatch is in progress takes part from the next dispatch on",
+    "an event object that is already stopped when it is dispatched (e.g. the object a previous dispatch returned) reaches no listener: the stop state belongs to the event",
 ]
 
 EVENTS = ["e1", "e2", "e3"]
@@ -92,8 +94,11 @@ class Harness(object):
         mine.sort(key=lambda t: (-t[1][1], t[0]))
         return [r[2] for _, r in mine]
 
-    def dispatch(self, event, fail, pass_event=True):
+    def dispatch(self, event, fail, pass_event=True, reuse_last=False):
         order = self.expected_order(event)
+        if reuse_last and getattr(self, "last_event", None) is not None and self.last_event.is_propagation_stopped():
+            order = []  # an event that is already stopped reaches no listener (see ASSUMPTIONS)
+            self.nt = True
         prios = [p for (e, p, _) in self.regs if e == event]
         if len(prios) != len(set(prios)):
             self.nt = True
@@ -112,6 +117,11 @@ class Harness(object):
         self.call_names = []
         self.pending = []
         ev = self.Event() if pass_event else None
+        already_stopped = False
+        if reuse_last and getattr(self, "last_event", None) is not None:
+            ev = self.last_event
+            pass_event = True
+            already_stopped = bool(ev.is_propagation_stopped())
         try:
             ret = self.d.dispatch(event, ev) if pass_event else self.d.dispatch(event)
         except Runaway:
@@ -134,8 +144,9 @@ class Harness(object):
             fail("C12.event", "the event object passed", repr(ret))
         if not pass_event and not isinstance(ret, self.Event):
             fail("C12.event", "an Event", repr(ret))
+        self.last_event = ret
         if ret is not None and hasattr(ret, "is_propagation_stopped"):
-            if bool(ret.is_propagation_stopped()) != stopped:
+            if bool(ret.is_propagation_stopped()) != (stopped or already_stopped):
                 fail("C12.event", stopped, ret.is_propagation_stopped(), sig="stopped-flag")
 
     def regs_event(self, lid):
@@ -207,6 +218,8 @@ def run_ops(ctx, part, ops, with_queries, by_construction=False, count=True):
             h.register(op[1], op[2], 0, reuse=op[3])
         elif k == "d":
             h.dispatch(op[1], fail, pass_event=(len(op) < 3 or op[2]))
+        elif k == "dl":  # dispatch the event object that the previous dispatch returned
+            h.dispatch(op[1], fail, reuse_last=True)
         elif k == "q":
             h.queries(fail)
         elif k == "qa":
@@ -251,6 +264,20 @@ OPS_REENTRANT = [("rs", "e1", 0, 0, 5, 0), ("rs", "e1", 5, 0, 0, 0), ("rs", "e1"
                  ("r", "e1", 0, 0), ("r", "e1", 5, 0), ("d", "e1")]
 
 
+# event-reuse family: the object returned by one dispatch is handed to the next one
+OPS_REUSE = [("r", "e1", 0, 0), ("r", "e1", 5, 1), ("r", "e2", 0, 0), ("r", "e2", 5, 1), ("d", "e1"), ("dl", "e1"), ("dl", "e2")]
+
+
+def shard_reuse(ctx, arg):
+    n, first = arg
+    for rest in itertools.product(OPS_REUSE, repeat=n - 1):
+        ops = (tuple(first),) + rest
+        if not any(o[0] == "dl" for o in ops):
+            continue
+        run_ops(ctx, "exhaustive", ops, True, by_construction=True)
+        run_ops(ctx, "exhaustive", ops, False, by_construction=True)
+
+
 def shard_reentrant(ctx, arg):
     n, first = arg
     for rest in itertools.product(OPS_REENTRANT, repeat=n - 1):
@@ -272,6 +299,7 @@ def op_st():
         st.tuples(st.just("rr"), ev, pr, st.integers(0, 7)),
         st.tuples(st.just("d"), ev, st.booleans()),
         st.tuples(st.just("d"), ev, st.booleans()),
+        st.tuples(st.just("dl"), ev),
         st.tuples(st.just("q")),
         st.tuples(st.just("qa")),
         st.tuples(st.just("qe"), ev),
@@ -297,6 +325,7 @@ def run(ctx):
         jobs = [(n, [list(a), list(b)]) for a in OPS for b in OPS]
     ctx.parallel("shard_exhaustive", jobs)
     ctx.parallel("shard_reentrant", [(n, list(a)) for a in OPS_REENTRANT])
+    ctx.parallel("shard_reuse", [(n, list(a)) for a in OPS_REUSE])
     ctx.exhaustive(
         "exhaustive", True, "all %d^%d op sequences, each with and without queries; all %d^%d sequences over the "
         "re-entrant alphabet (listeners that register a listener for the running event)" % (len(OPS), n, len(OPS_REENTRANT), n)
